@@ -44,7 +44,7 @@ RULE = ("Hypothesis-generated (img_shape 16..128 square/rectangular, accel in (1
         "the raise path was reached. distinct = distinct (shape, accel, calib, tol, seed, crop, dtype).")
 ASSUMPTIONS = [
     "seed is a Python int in [0, 2**31-1] (documented type; seed=None asks for a non-reproducible mask and is outside 'depends only on the arguments and seed')",
-    "calib is (0,0) or has 1 <= calib[i] <= img_shape[i]//2 on both axes (calib equal to the image makes the code's radius 0/0)",
+    "calib is (0,0) or has 1 <= calib[i] <= img_shape[i]//2 on both axes, or (small images) 60-85 % of each axis with an acceleration below size/calib-area (calib equal to the image makes the code's radius 0/0)",
     "max_attempts and return_density are left at their defaults; img_shape and calib are passed as tuples of Python ints",
     "cost restriction: accel < 2 (at or below the densest reachable pattern, ~60 dense kernel runs of 4-15 ms) only for images of <= 640 pixels; images with an axis > 64 use accel >= 3; axis lengths > 64 are 1/7 of the cases",
     "crop_corner: only samples STRICTLY outside the ellipse are violations (points exactly on it are decided by rounding in the code's float r < 1); for calib != (0,0) the ellipse is the code's radius (|x-nx/2|-cx/2)+/(nx/2-cx/2), which contains the image's inscribed ellipse (DESIGN section 7)",
@@ -381,6 +381,12 @@ def st_case(draw):
         calib = [0, 0]
     else:
         calib = [draw(st.integers(1, ny // 2)), draw(st.integers(1, nx // 2))]
+    if ny * nx <= 1024 and draw(st.sampled_from([False] * 5 + [True])):
+        # a LARGE calibration region (60-85 % of each axis) with an acceleration it still leaves reachable
+        fy, fx = draw(st.integers(60, 85)) / 100.0, draw(st.integers(60, 85)) / 100.0
+        calib = [max(1, min(ny - 2, int(fy * ny))), max(1, min(nx - 2, int(fx * nx)))]
+        amax = (ny * nx) / float(calib[0] * calib[1])
+        accel = 1.0 + draw(st.integers(10, 80)) / 100.0 * (amax - 1.0)
     tol = draw(st.one_of(st.sampled_from((0.1, 0.2, 0.05, 0.3, 0.01)), st.floats(0.01, 0.3, allow_nan=False)))
     seed = draw(st.one_of(st.just(0), st.integers(0, 100), st.integers(0, 2 ** 31 - 1)))
     crop = draw(st.booleans())
